@@ -144,7 +144,8 @@ class Pickup:
         if self.attr_type == 'radius':
             return surface.geometry.radius
         elif self.attr_type == 'conic':
-            return surface.geometry.k
+            # a flat surface has no conic term unless one was set on it
+            return getattr(surface.geometry, 'k', 0)
         elif self.attr_type == 'thickness':
             return (
                 self.optic.surface_group.get_thickness(self.source_surface_idx)
